@@ -208,9 +208,36 @@ Arguments OAppend {E}. Arguments OSetLength {E}. Arguments OSlice {E}.
 Arguments OIncRes {E}. Arguments ODeepcopy {E}. Arguments OReinit {E}. Arguments OReset {E}.
 
 (* ------------------------------------------------------------------ *)
+(** * The two repaired methods as they are in a tree WITHOUT
+      notes/C17-fix-1.diff and notes/C17-fix-2.diff.  Only the [_refuted]
+      witnesses in Proofs/Events.v use them; [run] does not. *)
+
+(** set_length: `del self._events[0:-steps]` when shrinking from the left *)
+Definition base_set_length_unfixed {E} (s : st E) (n : Z) (from_left : bool) : st E :=
+  let len := zlen (events s) in
+  let ev :=
+    if len <? n then
+      if from_left then repeat (pad s) (Z.to_nat (n - len)) ++ events s
+      else events s ++ repeat (pad s) (Z.to_nat (n - len))
+    else
+      if from_left then py_del_slice (events s) (Some 0) (Some (- n))
+      else py_del_slice (events s) (Some n) None in
+  if from_left then mkst ev (stop s - n) (stop s) (spb s) (spq s) (pad s)
+  else mkst ev (start s) (start s + n) (spb s) (spq s) (pad s).
+
+(** __getitem__(slice): `start_step=self.start_step + (key.start or 0)` *)
+Definition slice_start_unfixed {E} (s : st E) (a : option Z) : Z :=
+  start s + match a with Some i => i | None => 0 end.
+
+(* ------------------------------------------------------------------ *)
 (** * The four concrete classes *)
 
 Definition no_fix {E} (_ : nat) (l : list E) : list E := l.
+
+(** [Cls()] / [SimpleEventSequence(pad_event=p)]: the empty object every
+    history starts from *)
+Definition empty_st {E} (p : E) : st E :=
+  mkst [] 0 0 DEFAULT_STEPS_PER_BAR DEFAULT_STEPS_PER_QUARTER p.
 
 (** SimpleEventSequence itself: events are opaque (integers on the wire). *)
 Module Plain.
